@@ -727,6 +727,22 @@ func (s *Sim) anchor() {
 				}
 			}
 		}
+	case "anchor-float-counter-order":
+		// increments of a Float counter that are not exactly representable: 0.1, then +0.2 on one
+		// replica and -0.3 on another, exchanged in different orders (C01 only)
+		id := s.createWith(0, map[string]any{"name": "anchor6", "nf": 0.1})
+		g := s.headOf(id)
+		for r := 1; r < len(s.reps); r++ {
+			s.deliver(r, g, "")
+		}
+		s.updateWith(1, id, map[string]any{"nf": 0.2})
+		h1 := s.headOf(id)
+		s.updateWith(2, id, map[string]any{"nf": -0.3})
+		h2 := s.headOf(id)
+		s.deliver(0, h1, "")
+		s.deliver(0, h2, "")
+		s.deliver(1, h2, "")
+		s.deliver(2, h1, "")
 	case "anchor-three-way":
 		id := s.createWith(0, map[string]any{"name": "anchor4", "n": 1, "p": 1})
 		g := s.headOf(id)
@@ -1091,7 +1107,11 @@ func (s *Sim) quiescence() {
 		if q != q0 || strings.Join(e, ";") != strings.Join(e0, ";") {
 			s.logf("r0: %s %v", q0, e0)
 			s.logf("r%d: %s %v", i, q, e)
-			s.violate("diverge/documents", fmt.Sprintf("after every replica merged every commit, r0 and r%d return different documents (showDeleted view)", i))
+			sig := "diverge/documents"
+			if s.P.Recipe == "anchor-float-counter-order" {
+				sig += "/float-counter-sum-depends-on-merge-order"
+			}
+			s.violate(sig, fmt.Sprintf("after every replica merged every commit, r0 and r%d return different documents (showDeleted view)", i))
 			break
 		}
 		l, _ := s.reps[i].n.GQL(s.ctx, `query { Doc { _docID name s i f b t j a bl u n p nf x05 x07 x09 } }`)
